@@ -337,7 +337,7 @@ def extract(cfg=None, root=None, extra_units=(), extra_flags=(), tag="lib", tole
         lock.close()
 
 
-def _gc_facts(keep, max_dirs=6):
+def _gc_facts(keep, max_dirs=40):
     base = os.path.join(BUILD, "facts")
     dirs = [d for d in glob.glob(os.path.join(base, "*")) if os.path.isdir(d) and os.path.basename(d) != keep]
     dirs.sort(key=os.path.getmtime)
